@@ -20,6 +20,9 @@ for n in range(0, 15):
         tiers=('quick', 'thorough') if n in (0, 2, 7) else ('thorough',), witness=(n in (7, 10)),
         bound='every Set-Cookie text of exactly %d bytes in an exact-size heap block; FullDate parser arbitrary' % n,
         desc='Cookie::fromRaw: memory safety, termination, only runtime_error/invalid_argument; name/value are the exact ranges; Max-Age never overflows'))
+HARNESSES.append(dict(name='fromraw_maxage', units=['cookie'], file='c17_cookie.c', defs={'H_SAFE': None, 'NN': 22, 'PREFIX': '"a=;Max-Age="'}, unwind=25, unwindset=US, outer_unwind=3, timeout=1500,
+    bound='every text of exactly 22 bytes that starts with "a=;Max-Age=" (11 arbitrary bytes other than a semicolon follow: every digit string of 11 digits, leading zeros included)', witness=True,
+    desc='Cookie::fromRaw, Max-Age conversion: no signed overflow for any digit string, values beyond INT_MAX are rejected with invalid_argument'))
 def rt(attrs, tiers, witness=False, extra=None, madig=3):
     d = {'H_RT': None, 'ATTRS': attrs, 'MADIG': madig}
     if extra: d.update(extra)
